@@ -31,6 +31,11 @@ theorem encHeader_eq (pre : Bytes) (n : Nat) (hn : n ≤ 68719476735) :
       apply Array.toList_inj.1
       simp [Nat.shiftRight_eq_div_pow]
 
+/-- `Sparse6Encode` writes `':'` and the same size header (its own copy of the code, with its own regenerated constants) -/
+theorem encHeaderS6_eq (n : Nat) (hn : n ≤ 68719476735) :
+    encHeaderS6 n = .ok (#[58] ++ (Nn n).toArray) :=
+  (show encHeaderS6 n = encHeader #[58] n from rfl).trans (encHeader_eq #[58] n hn)
+
 theorem Nn_range (n : Nat) (hn : n ≤ 68719476735) : ∀ c ∈ Nn n, 63 ≤ c ∧ c ≤ 126 := by
   intro c hc
   unfold Nn at hc
